@@ -41,12 +41,12 @@ def _fresh(ip, args, kw, fr):
     raise Unsupported(f'fresh() of {v.k}')
 
 
-def abstract(ret='str'):
+def abstract(ret='str', heap=True):
     """Mark a spec function as *abstract*: symbolically it is an uninterpreted function of its
-    arguments and of the heap version (so two evaluations in the same heap agree and nothing else is
-    known about it); natively it runs its body.  Used to name the result of a callee without
+    arguments and — unless heap=False — of the heap version (so two evaluations in the same heap agree
+    and nothing else is known about it); natively it runs its body.  Used to name the result of a callee without
     re-expanding the callee's specification inside every caller (modular composition)."""
     def deco(fn):
-        fn._pyvc_abstract = (fn.__name__, ret)
+        fn._pyvc_abstract = (fn.__name__, ret, heap)
         return fn
     return deco
